@@ -9,11 +9,11 @@ SPEC = {
     'harness': 'c08',
     'args': {
         'quick': ['-maps', 800, '-structs', 120, '-nested', 300, '-reps', 3],
-        'thorough': ['-maps', 20000, '-structs', 3000, '-nested', 6000, '-reps', 6],
+        'thorough': ['-maps', 20000, '-structs', 3000, '-nested', 6000, '-reps', 6, '-hist', 3],
     },
     'search_args': ['-maps', 6000, '-structs', 600, '-nested', 1500, '-reps', 4],
     'assumptions': [
-        'the model has no goroutine, Encoder-instance or transport state: independence from those is by construction and is tied by the harness (fresh Encoders, 4 goroutines, bytes vs io)',
+        'the model has no goroutine, Encoder-instance or transport state: independence from those is by construction and is tied by the harness (fresh Encoders, 4 goroutines, bytes vs io; stream hist: every ordered pair and triple of 24 struct shapes on ONE Encoder, successive Encode calls with / without Reset and inside one value, must give each value the bytes a fresh Encoder gives it)',
         'keys_ok: no two distinct keys of a map look the same to the comparator (excludes F08-1 interface{} keys with one encoding, F08-2 time keys for one instant; a single NaN float key is generated: its value is lost in canonical mode, F08-4); the encoding of an out-of-band key is a function of the key alone (true of binc AsSymbols=1 too since /repo 36f56b8, which repaired F08-3: C08_binc_side_keys)',
         'slices.SortFunc / sort.Sort are modelled as the stable insertion sort: the same result whenever no two sort keys tie (and for n <= 12 even then)',
         'every comparator (cmp.Compare on ints/uints/floats/strings, Time.Compare, bytes.Compare) is the lexicographic order on the integer list skey; out-of-band key bytes are observed through the verif hook VerifCanonicalKeyBytes',
@@ -27,7 +27,7 @@ def main(chk):
 
 MANIFEST = {
     'category': 'proof',
-    'technique': 'Coq proof (a stable insertion sort by a total order on distinct sort keys has a unique result; permutation invariance of lookup) on an executable model of the canonical emission order + vm_compute correspondence of the emitted entry order on real Encoders (every key kind, 5 formats) + direct determinism oracle (insertion permutations x repetitions x goroutines x transports) + Decode(canonical) = Decode(non-canonical)',
+    'technique': 'Coq proof (a stable insertion sort by a total order on distinct sort keys has a unique result; permutation invariance of lookup) on an executable model of the canonical emission order + vm_compute correspondence of the emitted entry order on real Encoders (every key kind, 5 formats) + direct determinism oracle (insertion permutations x repetitions x goroutines x transports x Encoder history: every ordered pair / triple of a struct-shape corpus on one Encoder) + Decode(canonical) = Decode(non-canonical)',
     'text': 'C08_perm: for ALL key kinds, key encodings and maps with pairwise distinct keys satisfying keys_ok, any two iteration orders give the same canonical emission order; keys_ok is automatic for bool/string/int/uint keys (C08_keys_ok_natural) and is injectivity of the key encoding for out-of-band keys (C08_keys_ok_oob, discharged for the modelled scalar encoding: C08_enc_injective_scalars); C08_same: canonical output is a permutation of the plain output and decodes to the same map; C08_struct: struct fields and missing fields come out in one sorted sequence; C08_nested: for values with maps at any depth, any two views that differ only in the order maps list their entries have one canonical form. The unguarded statement is refuted with witnesses for two confirmed defects (C08_perm_refuted F08-1, C08_time_refuted F08-2); F08-3 (binc symbols in out-of-band keys) is repaired and is now the positive theorem C08_binc_side_keys.',
     'note': 'Trusted: Coq kernel, the hand-written model of the canonical order (correspondence-checked on the emitted entry order), the hook that returns out-of-band key bytes, the harness, Go toolchain. The byte-level encodings of keys and values are not modelled here (C01/wire models). Known findings F08-1, F08-2, F08-4 are matched narrowly (key kind + tie count).',
 }
